@@ -263,7 +263,7 @@ PLAN["C01"]["units"] = PLAN["C01"]["units"] + [HP + "handle"]
 # C20 "fans lifespan out so that startup/shutdown complete only when every mount has completed":
 # outside the VC generator (dict comprehensions over the mount table, a task and a queue per mount),
 # decided by a bounded native enumeration, labelled as such
-PLAN["C20"]["standins"] = PLAN["C20"].get("standins", []) + [{"file": "standins/dispatcher_lifespan.py", "name": "lifespan fan-out of DispatcherMiddleware (_handle_lifespan + send, both classes)",
+PLAN["C20"]["standins"] = PLAN["C20"].get("standins", []) + [{"file": "standins/dispatcher_lifespan.py", "name": "lifespan fan-out of DispatcherMiddleware: _handle_lifespan of both classes (the counting rule of send() is under contract)",
                                                                "label": "BOUNDED stand-in, not counted as proved"}]
 # C06 "announces close on the response and closes after it": the transport is closed when the
 # protocol says Closed (both servers)
